@@ -275,6 +275,10 @@ class CExec:
         """result of an arithmetic op with mathematical value m in type ty."""
         if not ty.is_int():
             raise OutOfSubset("arithmetic on %s" % ty.name)
+        if z3.is_app(m) and m.num_args() > 0 and all(z3.is_int_value(c) for c in m.children()):
+            m = z3.simplify(m)
+        if z3.is_int_value(m) and not ty.signed:
+            return CV(ty, z3.IntVal(m.as_long() % (1 << ty.bits)))
         if ty.signed:
             if self.opt["wrapv"]:
                 return CV(ty, S.wrap(m, ty.bits, True))
@@ -357,13 +361,29 @@ class CExec:
                 # (0/1) & v  ==  (v odd) if bit else 0
                 r = z3.If(bb.b, o.t % 2, z3.IntVal(0))
                 return CV(ty, r, b=z3.And(bb.b, o.t % 2 == 1))
+        if op == "|" and (x.b is not None or y.b is not None):
+            # v | bit: sets bit 0 (v even: v+1, no carry; v odd: v) -- two's complement, any width/sign
+            bb, o = (x, y) if x.b is not None else (y, x)
+            return CV(ty, z3.If(bb.b, z3.If(o.t % 2 == 0, o.t + 1, o.t), o.t), sym=("or", x, y))
         if op == "|":
             # exact when one operand is zero; otherwise the island
             isl = self.island(op, x, y, ty)
-            return CV(ty, z3.If(x.t == 0, y.t, z3.If(y.t == 0, x.t, isl)))
+            return CV(ty, z3.If(x.t == 0, y.t, z3.If(y.t == 0, x.t, isl)), sym=("or", x, y))
         if op == "^":
             return CV(ty, self.island(op, x, y, ty), sym=("xor", x, y))
-        return CV(ty, self.island(op, x, y, ty))
+        return CV(ty, self.island(op, x, y, ty), sym=("and", x, y))
+
+    def msb(self, v):
+        """most significant bit of v (two's complement, width of v.ty) as a Bool; bitwise operators
+        act bit by bit, so msb(x op y) == msb(x) op msb(y) (proved in BV by the idiom lemmas)."""
+        if v.sym and v.sym[0] in ("xor", "and", "or") and v.sym[1].ty.bits == v.ty.bits and v.sym[2].ty.bits == v.ty.bits:
+            a, b = self.msb(v.sym[1]), self.msb(v.sym[2])
+            return {"xor": z3.Xor, "and": z3.And, "or": z3.Or}[v.sym[0]](a, b)
+        if v.b is not None and v.ty.bits > 1:
+            return z3.BoolVal(False)
+        if v.ty.signed:
+            return v.t < 0
+        return v.t >= (1 << (v.ty.bits - 1))
 
     def island(self, op, x, y, ty):
         w = ty.bits
@@ -385,6 +405,8 @@ class CExec:
                     return CV(ty, m)
                 return CV(ty, S.wrap(m, w, True))
             return CV(ty, m % (1 << w))
+        if not ty.signed and z3.is_int_value(kk) and kk.as_long() == w - 1 and x.sym:
+            return from_bool(self.msb(x), ty)
         if ty.signed:
             self.assumptions.add(">> of a negative signed value is an arithmetic shift (implementation-defined; gcc/clang)")
         if z3.is_int_value(p):
@@ -478,7 +500,7 @@ class CExec:
         if o.length is None:
             raise OutOfSubset("access to object %s of unknown extent" % p.obj)
         self.oblige(st, "ub", "oob_read." + p.obj, z3.And(p.off >= 0, p.off < o.length), node)
-        t = z3.Select(st.mem[p.obj], p.off)
+        t = z3.simplify(z3.Select(st.mem[p.obj], p.off))
         return CV(o.elem, t)
 
     def store(self, st, p, v, node):
